@@ -27,6 +27,7 @@ type sizes struct {
 	raceIters           int
 	extras              int
 	modelHist, modelTV  int
+	barrier             int
 }
 
 func c05(o Opts) error {
@@ -34,10 +35,10 @@ func c05(o Opts) error {
 	h := &H{res: res}
 	r := NewRng(o.Seed)
 	sz := sizes{histories: 120, histOps: 24, permUniverses: 6, unionSets: 40, cmpUniverses: 4, malformed: 400,
-		concRounds: 12, concGor: 8, raceIters: 8000, extras: 40, modelHist: 45, modelTV: 200}
+		concRounds: 12, concGor: 8, raceIters: 8000, extras: 40, modelHist: 45, modelTV: 200, barrier: 4000}
 	if o.Tier == "thorough" {
 		sz = sizes{histories: 3000, histOps: 40, permUniverses: 60, unionSets: 600, cmpUniverses: 12, malformed: 6000,
-			concRounds: 150, concGor: 12, raceIters: 60000, extras: 600, modelHist: 220, modelTV: 1200}
+			concRounds: 150, concGor: 12, raceIters: 60000, extras: 600, modelHist: 220, modelTV: 1200, barrier: 40000}
 	}
 	m := &modelCases{tvSeen: map[string]bool{}}
 	sections := []struct {
@@ -51,6 +52,7 @@ func c05(o Opts) error {
 		{"compare", func() { compare(h, r, sz, m) }},
 		{"malformed", func() { malformed(h, r, sz) }},
 		{"concurrent", func() { concurrent(h, r, sz) }},
+		{"barrier", func() { barrierRace(h, sz.barrier) }},
 		{"extras", func() { extras(h, r, sz) }},
 	}
 	for _, s := range sections {
